@@ -24,6 +24,37 @@ def parser_availability(chk, fx, rule):
     chk.floor(rule, "cursor read sites in pdu::reader", n_sites, 60)
 
 
+def text_values_as_stored(chk, fx, rule):
+    """PrimitiveValue::to_multi_str (the only source of the strings of a JSON `Value` array): a single string is one value -- it is not cut
+    at backslashes (ST/LT/UT/UR hold one value and `\\` is ordinary text there); the multi-valued variants yield one string per element"""
+    chk.rule(rule, "PrimitiveValue::to_multi_str: the `Str` arm yields exactly the one stored string (no split / lines / chunking call on it) and does not share "
+                   "its arm with `Strs`; every other variant maps its elements one to one (no filter / skip / take / dedup)")
+    PV = "dicom_core::value::primitive::PrimitiveValue"
+    h = fx.method("dicom_core", PV, "to_multi_str")
+    ms = H.matches_over(h["body"], lambda t: t == PV)
+    if len(ms) != 1:
+        raise facts.MissingAnchor("to_multi_str: match over PrimitiveValue")
+    variants = fx.variants(PV)
+    tab, arms = H.enum_table(ms[0], variants, PV)
+    n = 0
+    for v in variants:
+        if not tab[v]:
+            chk.bad(rule, "to_multi_str", v, "an arm", "no arm", loc=C.fn_loc(h))
+            continue
+        p, g, b, ln = arms[tab[v][0]]
+        calls = [x[3] for x in H.walk(b) if H.kind(x) == "mcall"]
+        n += 1
+        if v == "Str":
+            shared_arm = [w for w in variants if w != v and tab[w] and tab[w][0] == tab[v][0]]
+            cutting = [c for c in calls if c.startswith("split") or c in ("lines", "chunks", "matches", "rsplit", "trim_matches", "replace")]
+            chk.expect(not shared_arm and not cutting, rule, "to_multi_str", v, "one value: the stored string itself", {"arm shared with": shared_arm, "cutting calls": cutting},
+                       loc=f"{h['loc']['f']}:{ln}")
+        elif v != "Empty":
+            dropping = [c for c in calls if c in ("filter", "filter_map", "skip", "take", "skip_while", "take_while", "step_by", "dedup", "rev")]
+            chk.expect(not dropping, rule, "to_multi_str", v, "one string per element, in order", dropping, loc=f"{h['loc']['f']}:{ln}")
+    chk.floor(rule, "variants", n, 15)
+
+
 def guard_tightness(chk, fx, rule):
     """pdu::reader: a guard demanding a constant number of bytes demands no more than is read before the next guard on that cursor or the
     end of the loop iteration -- an over-strict guard rejects the shortest valid encoding (a PDV without data, a last item ...)"""
